@@ -141,6 +141,9 @@ def run_check(prop: Prop, tier: str, seed: int, replay: str | None = None) -> in
 
 
 def _run(prop: Prop, ctx: Ctx, t0: float, replay: str | None) -> int:
+    if not replay and REPLAYS.exists():
+        for old in REPLAYS.glob(f"{prop.id}-*.json"):
+            old.unlink()
     # 1. model checking of the specification itself ---------------------------------
     mcs = []
     if not replay:
